@@ -19,13 +19,16 @@
 (* given monotonicity inside each half, which is checked on sorted random  *)
 (* words and on the boundary lattice ("mono" events).                      *)
 (***************************************************************************)
-EXTENDS Ord, QuantileTable, Sequences, Integers
+EXTENDS Ord, QuantileTable, Sequences, Integers, IOUtils
+
+\* the tier's table (environment variable TIER, default: the quick table)
+QT == IF "TIER" \in DOMAIN IOEnv /\ IOEnv.TIER = "thorough" THEN QTableT ELSE QTable
 
 Step(ft) == IF ft = "f32" THEN <<0, 524288, 0>>      \* 2^40 = one f32 lattice step in units of 2^-64
             ELSE <<0, 0, 2048>>                       \* 2^11
 Slack(ft) == LAdd(Step(ft), Step(ft))
 
-CaseOf(id) == QTable[id]
+CaseOf(id) == QT[id]
 
 \* the law at one anchor
 \* excl: words on which the call draws a second word (the redraw of Gumbel / Frechet at u = 1), not counted in cnt
@@ -36,9 +39,9 @@ CountOK(ft, cnt, excl, a) == /\ LLE(excl, Slack(ft))
 \* table sanity, checked by TLC before anything is judged: brackets are ordered, the CDF is nondecreasing
 \* along the anchors, the median anchor brackets 1/2
 Half == <<B, 0, 0>>                                   \* 2^63
-TableOK == \A c \in 1..Len(QTable) :
-              LET A == QTable[c].anchors IN
-              /\ QTable[c].id = c
+TableOK == \A c \in 1..Len(QT) :
+              LET A == QT[c].anchors IN
+              /\ QT[c].id = c
               /\ \A k \in 1..Len(A) : LLE(A[k].lo, A[k].hi)
               /\ \A k \in 1..(Len(A) - 1) : LLE(A[k].lo, A[k + 1].lo) /\ LLE(A[k].hi, A[k + 1].hi)
               /\ \E k \in 1..Len(A) : A[k].p = "1/2" /\ LLE(A[k].lo, Half) /\ LLE(Half, A[k].hi)
